@@ -294,7 +294,7 @@ class Ctx:
 
     # ------------------------------------------------------------------ REAL / ROUND obligations
     def round_bound(self, o, term, spec, w, K, positive=True, mag=None, assume=None, key=None, mode='ROUND',
-                    out_index=0, underflow=False, assume_defined=False):
+                    out_index=0, underflow=False, assume_defined=False, replay=None):
         """obligation (ROUND): for all real inputs satisfying the assumptions and all admissible rounding errors,
         |impl - spec| <= K * 2^-p * M  where M = |spec| or mag(A, xs).  (REAL): impl == spec exactly.
         spec/mag/assume are functions (A, xs) -> value / value / list of constraints over the Z3Alg."""
@@ -333,7 +333,7 @@ class Ctx:
         cons = list(getattr(it, 'rcons', [])) + it.defs + A.defs + ([x > 0 for x in xs] if positive else []) + extra + [bad]
         o.hash = hashlib.md5((o.oid + str(term.id)).encode()).hexdigest()
         o.syntactic = False
-        rp = self.round_replay(w, spec, K if mode == 'ROUND' else 0, mag, out_index, positive)
+        rp = replay or self.round_replay(w, spec, K if mode == 'ROUND' else 0, mag, out_index, positive)
         return self.decide(o, cons, w, rp, grid=False)
 
     def round_compositional(self, o, term, spec, w, K, positive, mag, assume, out_index, nops, assume_defined=False):
@@ -390,6 +390,57 @@ class Ctx:
         self.out['lemmas'] = len(fea._lemma_cache)
         return True
 
+    def formula_bound(self, o_formula, o_accuracy, term, spec, w, Kf, Kc, signs=None, assume=None, out_index=0, positive=False, lift_ty=None, mag=None, replay=None):
+        """two obligations about one output of a closed-form relation, both through the compositional analysis:
+          formula : | exact value of the executed expression (its own constants, no rounding) - spec | <= Kf 2^-p M
+                    and every division / root of the executed expression is defined, under the assumptions
+          accuracy: the propagated rounding constant c satisfies c <= Kc  (|computed - exact| <= c 2^-p M)
+        M is the propagated magnitude (sum of the magnitudes of the summands).  Input casts inserted by the harness
+        (model parameter of another numeric type) are lifted to exact inputs first."""
+        from . import fea
+        from .algebra import Z3Alg
+        for o in (o_formula, o_accuracy):
+            o.key = o.oid
+        if term is None:
+            o_formula.reason = o_accuracy.reason = 'missing term'
+            return
+        T = term.ty
+        t2 = lift_input_casts(term, lift_ty)
+        try:
+            an = fea.Analysis(T, positive, timeout_ms=min(self.timeout, 30000), signs=signs)
+            nd = an.run(t2)
+        except (fea.Abort, modes.ModeError) as e:
+            # no error constant: fall back to the exact identity and a conditioning query for the accuracy
+            self.round_bound(o_formula, t2, spec, w, 0, positive=positive, mode='REAL', out_index=out_index, assume=assume, replay=replay)
+            o_formula.desc += ' [exact identity: %s]' % e
+            if 'ill-conditioned' in str(e) and getattr(self, 'accuracy_optional', False):
+                # the formula itself divides by (takes the root of) a cancelling difference: no rounding bound exists
+                # that is uniform over the admissible inputs; declared, not bounded
+                self.out['obs'].remove(o_accuracy)
+                self.out['notes'].append('no uniform rounding bound (ill-conditioned by formula): ' + o_accuracy.oid)
+                return
+            self.round_bound(o_accuracy, t2, spec, w, Kc, positive=positive, mode='ROUND', out_index=out_index, assume=assume)
+            return
+        A = Z3Alg()
+        xs = [z3.Real('x%d' % i) for i in range(w.n_in)]
+        E = spec(A, xs)
+        extra = list(assume(A, xs)) if assume is not None else []
+        u = fea.rv(an.u)
+        undefined = [z3.Not(c) for c in an.real.side]
+        bad = z3.Or(A.abs(nd.E - E) > Kf * u * nd.M, *undefined)
+        o_formula.hash = hashlib.md5((o_formula.oid + 'f' + str(t2.id)).encode()).hexdigest()
+        o_formula.mode = 'REAL'
+        quant = lift_ty is not None and lift_ty != w.in_ty
+        rp = replay or self.round_replay(w, spec, Kf + Kc, mag, out_index, False)
+        rp.quantize = quant
+        self.decide(o_formula, an.real.defs + A.defs + extra + [bad], w, rp, grid=False)
+        o_accuracy.mode = 'ROUND'
+        o_accuracy.hash = hashlib.md5((o_accuracy.oid + 'a' + str(t2.id)).encode()).hexdigest()
+        o_accuracy.desc += ' [%d solver-checked local lemmas, propagated constant c = %.2f]' % (an.lemmas_used, float(nd.c))
+        rp2 = replay or self.round_replay(w, spec, Kf + Kc, mag, out_index, False)
+        rp2.quantize = quant
+        self.decide(o_accuracy, [fea.rv(nd.c) > Kc], w, rp2, grid=False)
+
     def round_replay(self, w, spec, K, mag, out_index, positive):
         """realisation search for one abstract counterexample: the model point rounded into the type, its
         neighbours and power-of-two rescalings are run through the natively compiled wrapper; the error is measured
@@ -412,6 +463,9 @@ class Ctx:
 
         def rp(xs):
             t = H.NPT[w.in_ty]
+            if all(float(v) == 0.0 for v in xs):
+                # the solver's query had no input variables (a bound on a propagated constant): seed the search
+                xs = [t(0.3) + t(0.41) * t(i % 7) + t(1.0) / t(3 + i) for i in range(len(xs))]
             cands = [list(xs)]
             rng = np.random.default_rng(12345)
             pT = tm.FPREC[w.in_ty]
@@ -427,6 +481,9 @@ class Ctx:
                 for _ in range(6):
                     c = [t(x) * t(sc) * t(1.0 + 0.37 * rng.random()) for x in xs]
                     cands.append(c)
+            if getattr(rp, 'quantize', False):
+                # values representable in every numeric type, so that casts inserted by the harness are exact
+                cands = [[t(np.float32(v)) for v in c] for c in cands]
             worst = (-1.0, None, None, None)
             for c in cands:
                 if positive and any(not (v > 0) for v in c):
@@ -498,6 +555,16 @@ class Ctx:
                                                    [core.hexf(x) for x in exp] + expi))
         rp.case = {'kind': 'values', 'impl': w_impl.name}
         return rp
+
+
+def lift_input_casts(t, only_ty=None):
+    """fpext/fptrunc applied directly to an input are harness artefacts (a model parameter held in another numeric
+    type): replace them by exact inputs of the cast's type"""
+    m = {}
+    for x in tm.walk(t):
+        if x.op in ('fpext', 'fptrunc') and x.args[0].op == 'arg' and (only_ty is None or x.ty == only_ty):
+            m[x.id] = tm.arg(x.ty, x.args[0].args[0])
+    return tm.replace_nodes(t, m) if m else t
 
 
 def guarded(ctx, ident, fn):
